@@ -62,6 +62,7 @@ func rFlagsParse(d rBind) (ok bool, a, b bool) {
 
 func H_accept() {
 	spec := vParamString("spec")
+	check := vParamString("check")
 	root, ok := rParseSpec(spec)
 	vAssert(ok, "family spec is not well-formed for the reference")
 	argv := vArgvFor(vParamString("profile"))
@@ -95,13 +96,16 @@ func H_accept() {
 		vCover("rejected")
 	}
 	if (out.ran == 1) != refAccept {
+		if check != "C01" {
+			return // acceptance is C01's assertion
+		}
 		if out.ran == 0 && len(argv) > 0 && argv[len(argv)-1] == "--" && vKnownFinding("F1") {
 			vCover("KNOWN:F1")
 			return
 		}
 		vAssert(false, "C01: Action ran iff reference accepts: violated")
 	}
-	if out.ran != 1 {
+	if out.ran != 1 || check != "C02" {
 		return
 	}
 	// C02: the bound values are those of one accepting derivation
